@@ -202,7 +202,7 @@ def table_item(kind: str, dtm_frame: tuple[str, str], variant: str) -> tuple[dic
         fl = X.exp_flag(m)
         flags.append(fl)
         base = {"k": "tick", "code": 0, "form": "", "cs": [], "vs": [], "life": 0, "t": 1 + age, "c": 0,
-                "a": 0, "obs": 0, "slots": [], "exp": [fl]}
+                "a": 0, "obs": 0, "slots": [], "exp": [fl], "mcs": [], "mvs": []}
         if first:
             # receipt is at t = 1 (age 0); if age 0 is left out the first reading is later
             ev.append({**base, "k": "rx", "code": 1, "form": "S", "cs": [1], "vs": [1], "life": life, "t": 1,
@@ -381,7 +381,15 @@ def main(tier: str, replay: str | None) -> None:
                 name = fam.reader(ev["c"], ev["a"])[0] if ev["k"] == "read" else "_expired"
                 what = (f"{cls}: {fam.kind} family {fam.spec()}, event {line} ({ev['k']} ctx {ev['c']} .{name} -> {ev['obs']}"
                         f" at t={ev['t']} ms)")
-                chk.violation(cls, what, {"mode": "behaviour", "family": fam.spec(), "events": events, "line": line})
+                key = cls
+                if ev["k"] == "read" and cls.startswith("C14e:stale-value"):
+                    # is the value that lingers the one an array carried for this zone, kept alive because the library
+                    # merged the array with a per-zone packet that followed within 3 s (detect_array_fragment)?
+                    codes = set(items[idx]["attrs"][ev["a"] - 1])
+                    if any(p["k"] == "rx" and p["code"] in codes and ev["c"] in p["mcs"] and ev["c"] not in p["cs"]
+                           for p in items[idx]["ev"][: line - 1]):
+                        key = "C14e:stale-value:zones-of-an-array-merged-with-a-000A-fragment"
+                chk.violation(key, what, {"mode": "behaviour", "family": fam.spec(), "events": events, "line": line})
             else:
                 meta = tmeta[idx - nb]
                 kc = meta["kind"] if meta["kind"].startswith("1F09-") else "message-kind"
